@@ -175,7 +175,7 @@ CHECKS["C12"] = {
         {"name": "sections", "pkg": "rfc822", "pkgname": "rfc822", "entry": "VerifSections", "files": ["zz_verif_rfc822.go"],
          "params": {"quick": grid(n=[0, 3, 5, 6]), "thorough": grid(n=list(range(0, 9)))}, "cover": []},
         {"name": "paramlist", "pkg": "imap", "pkgname": "imap", "entry": "VerifC12ParamString", "files": ["zz_verif_c12.go"],
-         "params": {"quick": grid(n=[0, 1, 2], n2=[1]), "thorough": grid(n=[0, 1, 2, 3], n2=[0, 1, 2])}, "cover": []},
+         "params": {"quick": grid(n=[0, 1, 2], n2=[1]), "thorough": grid(n=[0, 1, 2], n2=[0, 1, 2]) + grid(n=[3], n2=[0])}, "cover": []},
         {"name": "nesting", "pkg": "rfc5322", "pkgname": "rfc5322", "entry": "VerifC12Nesting", "files": ["zz_verif_c12.go"],
          "params": {"quick": grid(k=[64], amplify=[8000000]), "thorough": grid(k=[64, 128], amplify=[8000000])},
          "cover": ["nesting-run"], "max_depth": 1000, "replay_accept_crash": True, "replay_timeout_s": 300},
